@@ -37,8 +37,34 @@ HOSTILE = [
     ("snowflake", "cast-signed", "SELECT b::int, 5 -CAST(-3 AS int) FROM t\n"),
     ("ansi", "distinct-comment", "SELECT DISTINCT -- c\n a, b FROM t\n"),
     ("ansi", "operator-comment", "SELECT a-- c\n- b, c FROM t\n"),
+    ("ansi", "double-sign-first", "SELECT - -1 FROM t\n"),
+    ("ansi", "comment-before-args", "SELECT coalesce -- c\n    (a, b) FROM t\n"),
+    ("tsql", "comment-before-size", "CREATE TABLE t (a VARCHAR -- c\n    (10))\n"),
+    ("ansi", "cte-then-comment", "WITH a AS (SELECT 1), b AS (SELECT 2)\n-- final query\nSELECT * FROM b\n"),
+    ("ansi", "cte-comment-between", "WITH a AS (SELECT 1) -- first\n, b AS (SELECT 2) /* second */\nSELECT * FROM b\n"),
+    ("ansi", "distinct-comment-single", "SELECT DISTINCT -- c\n    a\nFROM t\n"),
+    ("ansi", "operator-comments", "SELECT a -- c0\n    + -- c\n    b\nFROM t\n"),
+    ("ansi", "from-comment", "SELECT a\nFROM -- c\n    tbl\n"),
+    ("ansi", "multiline-literal", "WITH cte AS (SELECT 1 AS a)\nSELECT\n    'multi\nline', a\nFROM cte\n"),
     ("sqlite", "exists", "SELECT a FROM t WHERE EXISTS(SELECT 1 FROM u WHERE u.a = t.a) AND a<>1 AND b!=2\n"),
 ]
+
+
+def comment_jobs(ctx, ruleset, want, extras, n_quick=40, n_thorough=400):
+    """Fixture statements with one comment injected at a token boundary (inline comments end the line: what follows must stay code)."""
+    import re
+    rng = ctx.rng
+    out = []
+    files = corpus.sample_fixtures(rng, 2 if ctx.tier == "quick" else 16, 500 if ctx.tier == "quick" else 1200)
+    rng.shuffle(files)
+    for k, (d, name, sql) in enumerate(files[:n_quick if ctx.tier == "quick" else n_thorough]):
+        spots = [m.start() for m in re.finditer(r"(?<=[\w)\]])[ \n]+(?=[\w(\[*])|(?<=[\w)])(?=[(\[])", sql)]
+        if not spots:
+            continue
+        i = rng.choice(spots)
+        c = rng.choice([" -- c\n", " -- c\n    ", " /* c */ ", "\n-- c\n", " -- c1\n -- c2\n"])
+        out.append((d, "raw", None, "comment@%d:%s" % (i, name), sql[:i] + c + sql[i:].lstrip(" "), ruleset, extras[k % len(extras)], want))
+    return out
 
 
 def jobs(ctx, rulesets, want, per_quick=2, per_thorough=12, muts_quick=1, muts_thorough=3, max_quick=700, max_thorough=2500, extras=((),)):
